@@ -29,7 +29,7 @@ ASSUMPTIONS = [
     'programs whose baseline (without the observer) does not pass results() validation are outside the domain (rejected)',
 ]
 BUDGET = {'quick': dict(examples=800, shards=8, seconds=80),
-          'thorough': dict(examples=24000, shards=16, seconds=1200)}
+          'thorough': dict(examples=60000, shards=16, seconds=1200)}
 
 OBSERVERS = ['printer', 'dump_to_path', 'dump_to_path_json', 'dump_to_zip', 'stream_file', 'checkpoint',
              'finalizer', 'finalizer_stats', 'update_stats', 'validate']
